@@ -210,8 +210,16 @@ func streamRListen(c *ctx) {
 	for n := 0; n < 6*c.scale; n++ {
 		port := freePort()
 		// every second client is built with the debug flag on (logging only: nothing observable may depend on it)
+		// the client's timeout is about requests: the listener must not depend on it (0 and 5 ms for two of six clients)
+		timeout := T
+		switch n % 6 {
+		case 4:
+			timeout = 0
+		case 5:
+			timeout = 5 * time.Millisecond
+		}
 		u := uhppote.NewUHPPOTE(types.BindAddrFrom(netip.MustParseAddr("127.0.0.1"), 0), types.BroadcastAddr{},
-			types.ListenAddrFrom(netip.MustParseAddr("127.0.0.1"), uint16(port)), T, nil, n%2 == 1)
+			types.ListenAddrFrom(netip.MustParseAddr("127.0.0.1"), uint16(port)), timeout, nil, n%2 == 1)
 		res := []string{}
 		for cycle := 0; cycle < 3; cycle++ { // stop and re-bind immediately
 			var mu sync.Mutex
@@ -320,7 +328,7 @@ func streamRListen(c *ctx) {
 				res = append(res, fmt.Sprintf("cycle-bad(events=%v want=%v errors=%d/%d connected=%d %s)", evs, want, errs, bad, conn, end))
 			}
 		}
-		c.w.Emit(fmt.Sprintf("rlisten port=%d cycles=3", port), strings.Join(res, " "), "rlisten")
+		c.w.Emit(fmt.Sprintf("rlisten port=%d cycles=3 timeout=%d", port, timeout.Milliseconds()), strings.Join(res, " "), "rlisten", fmt.Sprintf("timeout/%v", timeout))
 	}
 	c.w.Notes = append(c.w.Notes, "rlisten stream: the real UDP listener on a loopback port, 3 start / stop cycles with immediate re-bind; per cycle 3..8 datagrams from two senders (valid, v6.62, truncated, valid event followed by 1 or 64 more bytes); events must arrive once each in order (in the second cycle while the callback is still busy with the first one), one error per malformed datagram, connected once, Listen returns nil; every second client with the debug flag on")
 	_ = cases.Hex
@@ -368,6 +376,11 @@ func streamRDiscover(c *ctx) {
 			}
 			plan = append(plan, planned{90 * time.Millisecond, 6000001, "valid"}, planned{100 * time.Millisecond, 6000002, "valid"})
 		}
+		timeout := T
+		if n == 2 { // every run: a client configured with a timeout of zero - nothing can be collected, and the call returns
+			timeout = 0
+			plan = []planned{{300 * time.Millisecond, 6000001, "valid"}}
+		}
 		sort.SliceStable(plan, func(i, j int) bool { return plan[i].delay < plan[j].delay })
 		rs := newUDPResponder("127.0.0.1", func(req []byte) []step {
 			out := []step{}
@@ -395,14 +408,14 @@ func streamRDiscover(c *ctx) {
 		})
 		ap := netip.MustParseAddrPort(rs.addr())
 		u := uhppote.NewUHPPOTE(types.BindAddrFrom(netip.MustParseAddr("127.0.0.1"), 0), types.BroadcastAddrFrom(ap.Addr(), ap.Port()),
-			types.ListenAddrFrom(netip.MustParseAddr("127.0.0.1"), 60001), T, nil, n%2 == 1)
+			types.ListenAddrFrom(netip.MustParseAddr("127.0.0.1"), 60001), timeout, nil, n%2 == 1)
 		t0 := time.Now()
 		devs, err := u.GetDevices()
 		el := time.Since(t0)
 		rs.close()
 		want := []string{}
 		for _, p := range plan {
-			if p.class == "valid" && p.delay < T {
+			if p.class == "valid" && p.delay < timeout {
 				want = append(want, fmt.Sprint(p.serial))
 			}
 		}
@@ -418,7 +431,7 @@ func streamRDiscover(c *ctx) {
 		if err != nil {
 			res = "err"
 		}
-		c.w.Emit(fmt.Sprintf("rdiscover T=%d | %s", T.Milliseconds(), strings.Join(ps, " ")), fmt.Sprintf("%s [%s] %s", res, strings.Join(got, ","), timeClass(el)), "rdiscover")
+		c.w.Emit(fmt.Sprintf("rdiscover T=%d | %s", timeout.Milliseconds(), strings.Join(ps, " ")), fmt.Sprintf("%s [%s] %s", res, strings.Join(got, ","), timeClassOf(el, timeout)), "rdiscover")
 		_ = want
 	}
 	c.w.Notes = append(c.w.Notes, "rdiscover stream: GetDevices through the real driver against a responder that answers with 0..5 datagrams (valid / truncated / over-long with a valid 64-byte prefix / wrong function code / non-BCD date; duplicates of 3 serial numbers) at 3..100 ms or after the window, once 300 malformed datagrams followed by two valid replies; every second client with the debug flag on; the call lasts one timeout")
